@@ -8,6 +8,7 @@ import (
 	"strings"
 	"sync"
 	"testing"
+	"time"
 
 	"github.com/bool64/cache"
 )
@@ -34,6 +35,7 @@ type lblStructure struct {
 	kinds   [][]string
 	ops     []lblOp
 	final   []string
+	ctxMode int // context of the invalidations: 0 background, 1 cancelled, 2 SkipRead+TTL (means nothing for a delete)
 }
 
 var (
@@ -120,6 +122,7 @@ func drawLblStructure(c *Case) *lblStructure {
 	}
 
 	st.final = drawLabels(c, 4, 0)
+	st.ctxMode = c.Weighted("invalidate-ctx", 4, 1, 1)
 
 	return st
 }
@@ -170,6 +173,21 @@ func newLblWorld(c *Case, st *lblStructure) *lblWorld {
 	return w
 }
 
+// ctx is the context the invalidations run under.
+func (w *lblWorld) ctx() context.Context {
+	switch w.st.ctxMode {
+	case 1:
+		ctx, cancel := context.WithCancel(context.Background())
+		cancel()
+
+		return ctx
+	case 2:
+		return cache.WithTTL(cache.WithSkipRead(context.Background()), time.Minute, false)
+	}
+
+	return bg
+}
+
 func (w *lblWorld) snapshot() map[string]bool {
 	s := map[string]bool{}
 
@@ -203,7 +221,7 @@ func (w *lblWorld) invalidate(labels []string, failAt int, trace bool) error {
 	func() {
 		defer func() { panicked = recover() }()
 
-		cnt, err = w.idx.InvalidateByLabels(bg, labels...)
+		cnt, err = w.idx.InvalidateByLabels(w.ctx(), labels...)
 	}()
 
 	w.failAt = -1
